@@ -42,6 +42,16 @@ EXTRA = [
     {"id": "late-comma-insn", "text": "mov r0, r1, }", "culprit": (0, ", }"), "col": "strict"},
     {"id": "word-second-oob", "text": ".word 1,\t200001", "culprit": (0, "200001"), "col": "strict"},
     {"id": "undef-after-tabs", "text": "mov\t#1,\tundefsym9", "culprit": (0, "undefsym9"), "col": "strict"},
+    # blanks, tabs, comments and line breaks in front of the culprit token
+    {"id": "user-error-semicolon", "text": ".error ; stop here", "culprit": (0, None), "col": "strict"},
+    {"id": "late-comma-spaced", "text": "mov r0, r1 , }", "culprit": (0, ", }"), "col": "strict"},
+    {"id": "late-comma-tabbed", "text": "mov r0,\tr1\t, }", "culprit": (0, ", }"), "col": "strict"},
+    {"id": "late-comma-first-spaced", "text": "mov r0  , }", "culprit": (0, ", }"), "col": "strict"},
+    {"id": "rad50-code-spaced", "text": ".rad50 /abc/ <50>", "culprit": (0, "<50>"), "col": "strict"},
+    {"id": "rad50-code-tabbed", "text": ".rad50 /abc/\t<77>/d/", "culprit": (0, "<77>"), "col": "strict"},
+    {"id": "block-misplaced-meta", "text": ".blkb 1 { nop }", "culprit": (0, "{"), "col": "strict"},
+    {"id": "block-misplaced-insn", "text": "clr r0 { nop }", "culprit": (0, "{"), "col": "strict"},
+    {"id": "block-misplaced-lines", "text": ".blkb 2 {\nnop\nnop\n}", "culprit": (0, "{"), "col": "strict"},
     # the same branch faults with a target that is not known when the statement is visited
     {"id": "far-branch-fwd", "text": "br farl9", "culprit": (0, None), "col": "stmt-or-operand", "needs": "farl"},
     {"id": "far-bne-fwd", "text": "bne farl9+2", "culprit": (0, None), "col": "stmt-or-operand", "needs": "farl"},
